@@ -1,9 +1,9 @@
 package vc
 
 import (
-	"os"
 	"fmt"
 	"hash/fnv"
+	"os"
 	"strings"
 )
 
